@@ -96,6 +96,11 @@ def post_unol(old, oldkw, result, exc, after, afterkw):
     ivs_one = [iv(e) for e in one]
     zero_out = Counter((s, data) for (s, t, data, _id) in rest if s == t)
     zero_in = Counter((iv(e)[0], exact(e.data)) for e in two if iv(e)[0] == iv(e)[1])
+    for (pnt, data), n_out in zero_out.items():
+        # a zero-length piece is a zero-length list-two event coming back, never a sliver cut off a longer one
+        if n_out > zero_in.get((pnt, data), 0):
+            v.append(("unol-zero-length-piece-invented", f"at={pnt} data={data} returned={n_out} zero-length list-two events there={zero_in.get((pnt, data), 0)} {ctx}"))
+            break
     for (pnt, data), n_in in zero_in.items():
         inside = any(a < pnt < b for a, b in ivs_one)
         on_edge = any(pnt in (a, b) for a, b in ivs_one)
